@@ -52,14 +52,15 @@ Proof.
   destruct (rev pdf) as [|lst revrest] eqn:E; [discriminate|].
   destruct revrest as [|y r]; [discriminate|].
   remember (y :: r) as revrest eqn:Erv.
-  assert (sf_loop QOps (Z.of_nat (length pdf) - 2) revrest lst [lst] 0 0 = (sf, mn, mx)) as Hrun by congruence.
+  assert (sf_loop QOps (Z.of_nat (length pdf) - 2) revrest (Qmin1 lst) [Qmin1 lst] 0 0 = (sf, mn, mx)) as Hrun by (cbn [n_min1 QOps] in H; congruence).
   clear H.
   assert (pdf = rev revrest ++ [lst]) as Epdf.
   { rewrite <- (rev_involutive pdf), E. reflexivity. }
   assert (length pdf = S (length revrest)) as Hlen.
   { rewrite Epdf, app_length, rev_length. cbn. lia. }
-  assert (lst == G (Z.of_nat (length revrest))) as Hlst.
-  { assert (nth (length revrest) pdf 0 = lst) as En.
+  assert (Qmin1 lst == G (Z.of_nat (length revrest))) as Hlst.
+  { assert (lst == G (Z.of_nat (length revrest))) as Hl0; [|rewrite Qmin1_id; [exact Hl0|rewrite Hl0; apply H1]].
+    assert (nth (length revrest) pdf 0 = lst) as En.
     { rewrite Epdf. rewrite app_nth2 by (rewrite rev_length; lia). rewrite rev_length, Nat.sub_diag. reflexivity. }
     rewrite <- En. rewrite (Hpdf (length revrest)) by lia. rewrite (HG (Z.of_nat (length revrest))).
     replace (Z.of_nat (length revrest) + 1)%Z with (Z.of_nat (length pdf)) by lia. rewrite Hend. ring. }
@@ -105,7 +106,7 @@ Proof.
   destruct (rev pdf) as [|lst revrest] eqn:E; [discriminate|].
   destruct revrest as [|y r]; [discriminate|].
   remember (y :: r) as revrest eqn:Erv.
-  assert (sf_loop QOps (Z.of_nat (length pdf) - 2) revrest lst [lst] 0 0 = (sf, mn, mx)) as Hrun by congruence.
+  assert (sf_loop QOps (Z.of_nat (length pdf) - 2) revrest (Qmin1 lst) [Qmin1 lst] 0 0 = (sf, mn, mx)) as Hrun by (cbn [n_min1 QOps] in H; congruence).
   clear H.
   assert (pdf = rev revrest ++ [lst]) as Epdf.
   { rewrite <- (rev_involutive pdf), E. reflexivity. }
@@ -118,6 +119,19 @@ Proof.
   rewrite En in Hl. apply gt0_Q in Hpos. specialize (Hl ltac:(lia) Hpos). lia.
 Qed.
 
+Lemma survival_min_hi : forall pdf sf mn mx,
+  survival QOps pdf = Ok (sf, mn, mx) -> (mn <= Z.of_nat (length pdf) - 2)%Z.
+Proof.
+  intros pdf sf mn mx H. unfold survival in H.
+  destruct (rev pdf) as [|lst revrest] eqn:E; [discriminate|].
+  destruct revrest as [|y r]; [discriminate|].
+  assert (sf_loop QOps (Z.of_nat (length pdf) - 2) (y :: r) (Qmin1 lst) [Qmin1 lst] 0 0 = (sf, mn, mx)) as Hrun
+    by (cbn [n_min1 QOps] in H; congruence).
+  assert (length pdf = S (length (y :: r))) as Hl2.
+  { rewrite <- (rev_involutive pdf), E. cbn [rev]. rewrite !app_length, rev_length. cbn. lia. }
+  apply sf_loop_mn in Hrun; [|lia]. destruct Hrun as [[Hm0|Hm0] _]; cbn [length] in *; lia.
+Qed.
+
 (* ---------- decomposition of build ---------- *)
 
 Lemma build_Q_inv : forall m bg d, build QOps m bg = Ok d ->
@@ -127,7 +141,7 @@ Lemma build_Q_inv : forall m bg d, build QOps m bg = Ok d ->
     d_data d = map (map (disc_cell QOps offset scale)) m /\
     pdf_of QOps bg (d_data d) = Ok pdf /\
     survival QOps pdf = Ok (d_sf d, d_min d, d_max d) /\
-    d_scale_f d = scale /\ d_offset d = clamp_i32 (Qtrunc offset) /\ d_rows d = Z.of_nat (length m).
+    d_scale_f d = scale /\ d_offset d = offset /\ d_rows d = Z.of_nat (length m).
 Proof.
   intros m bg d H. unfold build in H.
   destruct (forallb (fun row : list (cell Q) => (length row =? length bg)%nat) m) eqn:Ef; [|discriminate].
@@ -157,7 +171,7 @@ Lemma disc_cell_fin : forall m offset scale x,
   let k := disc_cell QOps offset scale (CFin x) in
   (0 <= k <= 1000)%Z /\ Qabs (inject_Z k - (x - offset) * scale) <= 1 # 2.
 Proof.
-  intros m offset scale x (_ & _ & Hsc & Hc) Hin. destruct (Hc x Hin) as [Hlo Hhi].
+  intros m offset scale x (_ & Hsc & Hc) Hin. destruct (Hc x Hin) as [Hlo Hhi].
   cbn [disc_cell]. change (n_round_i32 QOps (n_mul QOps (n_sub QOps x offset) scale))
     with (clamp_i32 (Qround_away ((x - offset) * scale))).
   set (y := (x - offset) * scale) in *.
@@ -170,12 +184,9 @@ Proof.
   destruct (Qround_away_err y) as [He1 He2]. apply Qabs_Qle_condition. split; lra.
 Qed.
 
-Lemma disc_ninf_Q : forall scale, 0 <= scale ->
-  disc_ninf QOps scale = if Qle_bool scale 0 then 0%Z else i32_min.
+Lemma disc_ninf_Q : forall scale, 0 < scale -> disc_ninf QOps scale = i32_min.
 Proof.
-  intros scale H. unfold disc_ninf. cbn. destruct (Qle_bool scale 0) eqn:E.
-  - apply Qle_bool_true in E. assert (scale == 0) as E0 by lra. apply Qeq_alt in E0. rewrite E0. reflexivity.
-  - apply Qle_bool_false in E. apply Qgt_alt in E. rewrite E. reflexivity.
+  intros scale H. unfold disc_ninf. cbn [n_cmp n_zero QOps]. rewrite (proj1 (Qgt_alt scale 0) H). reflexivity.
 Qed.
 
 Lemma data_row_ok : forall m offset scale,
@@ -185,8 +196,7 @@ Proof.
   destruct Hin as (row & E & Hrow). subst drow. unfold row_ok. apply Forall_forall. intros s Hs'.
   apply in_map_iff in Hs'. destruct Hs' as (c & E & Hc). subst s. rewrite cdf_range_Z. destruct c as [x|].
   - right. destruct (disc_cell_fin m offset scale x Hs (in_finite_cells _ _ _ Hrow Hc)) as [Hk _]. exact Hk.
-  - cbn [disc_cell]. destruct Hs as (_ & _ & Hsc & _). rewrite disc_ninf_Q by exact Hsc.
-    destruct (Qle_bool scale 0); [right; lia|left; reflexivity].
+  - cbn [disc_cell]. destruct Hs as (_ & Hsc & _). rewrite disc_ninf_Q by exact Hsc. left. reflexivity.
 Qed.
 
 (* ---------- the table is the exact tail of the discretised score ---------- *)
@@ -196,7 +206,7 @@ Theorem build_Q_table : forall m bg d,
   length (d_sf d) = (length m * cdf_range + 1)%nat /\
   (forall j, (j < length (d_sf d))%nat -> nth j (d_sf d) 0 == tailD (d_data d) bg (Z.of_nat j)) /\
   Forall row_ok (d_data d) /\ length (d_data d) = length m /\
-  (0 <= d_min d)%Z /\
+  (0 <= d_min d <= Z.of_nat (length m) * 1000 - 1)%Z /\
   (forall j, (Z.of_nat j < d_min d)%Z -> pmfD (d_data d) bg (Z.of_nat j) == 0).
 Proof.
   intros m bg d Hbg Hm H. apply build_Q_inv in H.
@@ -212,7 +222,9 @@ Proof.
   - apply Hhigh. rewrite Hlp. lia.
   - destruct (survival_min pdf _ _ _ Hsurv) as [Hmn0 Hmn].
     split; [congruence|]. split; [rewrite Hls; exact Hsf|]. split; [exact Hok|]. split; [exact Hld|].
-    split; [exact Hmn0|].
+    split.
+    { split; [exact Hmn0|]. pose proof (survival_min_hi pdf _ _ _ Hsurv) as Hhi.
+      rewrite Hlp, Nat2Z.inj_add, Nat2Z.inj_mul, cdf_range_Z in Hhi. lia. }
     intros j Hj. rewrite <- pmf_of_tailD.
     destruct (Nat.lt_ge_cases (S j) (length pdf)) as [Hjl|Hjl].
     + assert (0 <= nth j pdf 0) as Hnn'.
@@ -225,7 +237,7 @@ Proof.
       exfalso. unfold survival in Hsurv.
       destruct (rev pdf) as [|lst revrest] eqn:E; [discriminate|].
       destruct revrest as [|y r]; [discriminate|].
-      assert (sf_loop QOps (Z.of_nat (length pdf) - 2) (y :: r) lst [lst] 0 0 = (d_sf d, d_min d, d_max d)) as Hrun by congruence.
+      assert (sf_loop QOps (Z.of_nat (length pdf) - 2) (y :: r) (Qmin1 lst) [Qmin1 lst] 0 0 = (d_sf d, d_min d, d_max d)) as Hrun by (cbn [n_min1 QOps] in Hsurv; congruence).
       assert (length pdf = S (length (y :: r))) as Hl2.
       { rewrite <- (rev_involutive pdf), E. cbn [rev]. rewrite !app_length, rev_length. cbn. lia. }
       apply sf_loop_mn in Hrun; [|lia]. destruct Hrun as [[Hm0|Hm0] _]; lia.
